@@ -117,6 +117,11 @@ def block(g, depth, kinds):
         return [m + " {nosuchrole%s}`x`" % m], [(m, 0, "paragraph", None), (m, 0, "warning:role_unknown", None)]
     if kind == "directive":
         return directive(g, depth, kinds)
+    if kind == "container":
+        # ':::name' without braces is a plain container (div): its body is a nested render of the fence content
+        bl, bm = blocks(g, 0, 2, ["para", "quote", "unknown-role"])
+        first = _first_marker("\n".join(bl))
+        return [":::cls" + first] + bl + [":::"], [(first, 0, "container", None)] + [(mm, r + 1, k, x) for mm, r, k, x in bm]
     raise ValueError(kind)
 
 
@@ -192,7 +197,7 @@ def find_nodes(document):
             continue
         if kind in ("paragraph", "literal_block", "rubric", "title"):
             out.append((kind, _marker_in(plain_text(n)), n))
-        elif kind in ("block_quote", "bullet_list", "list_item", "note", "section"):
+        elif kind in ("block_quote", "bullet_list", "list_item", "note", "section", "container"):
             out.append((kind, _marker_in(plain_text(n)), n))
         elif kind == "target":
             out.append((kind, (n.get("names") or n.get("ids") or [""])[0], n))
@@ -367,13 +372,98 @@ def make_toplevel(eng, kinds):
     return body
 
 
+# ------------------------------------------------------------ Sphinx front end: logged location of warnings in and after an included file
+
+SPXI = {}
+
+
+def run_sphinx_include(variant, real=False):
+    """Real Sphinx build (dummy builder): returns the warning log."""
+    import io, sys
+    from sphinx.application import Sphinx
+    from sphinx.util.docutils import docutils_namespace, patch_docutils
+
+    saved = {}
+    if not real:
+        for name, mod in SPXI.items():
+            saved[name] = sys.modules.get(name)
+            sys.modules[name] = mod
+    try:
+        with tempfile.TemporaryDirectory(prefix="symx_c04_") as d:
+            os.makedirs(os.path.join(d, "sub"), exist_ok=True)
+            open(os.path.join(d, "conf.py"), "w").write("extensions = ['myst_parser']\nexclude_patterns = ['_build', 'sub/inc.md', 'inc.md']\n")
+            inc = {0: "inc.md", 1: "sub/inc.md"}[variant % 2]
+            open(os.path.join(d, inc), "w").write("Included para\n\nsecond {nosuchroleinc}`x` para\n")
+            pre = ["# Title", "", "first {nosuchrolebefore}`x`", ""] if variant >= 2 else ["# Title", ""]
+            lines = pre + ["```{include} %s" % inc, "```", "", "after {nosuchroleafter}`x`", ""]
+            open(os.path.join(d, "index.md"), "w").write("\n".join(lines))
+            warn = io.StringIO()
+            with docutils_namespace(), patch_docutils(d):
+                app = Sphinx(d, d, os.path.join(d, "_build"), os.path.join(d, "_build", ".doctrees"), "dummy", status=None, warning=warn, freshenv=True, parallel=0)
+                app.build()
+            return warn.getvalue().replace(d + os.sep, ""), inc, len(pre) + 4
+    finally:
+        for name, mod in saved.items():
+            if mod is None:
+                sys.modules.pop(name, None)
+            else:
+                sys.modules[name] = mod
+
+
+def check_sphinx_include(log, inc, after_line):
+    import re
+
+    loc = {}
+    for m_ in re.finditer(r"^(?:\x1b\[\d+m)?([^\s:]+):(\d+): WARNING: .*?\"(nosuchrole\w+)\"", log, re.M):
+        loc[m_.group(3)] = (m_.group(1), int(m_.group(2)))
+    if "nosuchroleinc" not in loc or "nosuchroleafter" not in loc:
+        return ("warning-missing", "expected warnings for both unknown roles: %r" % (log[:400],))
+    if inc not in loc["nosuchroleinc"][0]:  # (Sphinx may print "inc.md.rst")
+        return ("include-warning-source", "the warning raised inside %s is reported at %s:%d" % (inc, loc["nosuchroleinc"][0], loc["nosuchroleinc"][1]))
+    f, ln = loc["nosuchroleafter"]
+    if not f.startswith("index.md") or ln != after_line:
+        return ("warning-after-include", "the warning raised in index.md line %d after the include is reported at %s:%d" % (after_line, f, ln))
+    if "nosuchrolebefore" in loc and (not loc["nosuchrolebefore"][0].startswith("index.md") or loc["nosuchrolebefore"][1] != 3):
+        return ("line:warning", "the warning on line 3 of index.md is reported at %s:%d" % loc["nosuchrolebefore"])
+    return None
+
+
+def make_sphinx_include(eng):
+    setup()
+    if not SPXI:
+        from symx.instrument import load_instrumented
+
+        SPXI.update(load_instrumented(["myst_parser.mdit_to_docutils.sphinx_", "myst_parser.parsers.sphinx_"], using=CR.R))
+        SPXI["myst_parser.warnings_"] = CR.R["myst_parser.warnings_"]
+    c = CR.Choice(eng)
+    state = {}
+    eng.witness_fn = lambda m: dict(state)
+
+    def body():
+        c.reset()
+        v = c.choose(4)
+        state.update(sphinx_include=v)
+        try:
+            log, inc, after_line = run_sphinx_include(v)
+        except Exception as exc:  # noqa
+            eng.fail("render-raises", "%s: %s" % (type(exc).__name__, str(exc)[:300]))
+        err = check_sphinx_include(log, inc, after_line)
+        if err:
+            eng.fail(*err)
+        eng.passed(3)
+        eng.note("directive")
+        return "ok"
+
+    return body
+
+
 ALL = ["para", "quote", "list", "code", "target", "heading", "unknown-directive", "unknown-role", "directive"]
 
 
 def families(tier, seed):
     q = tier == "quick"
     F = []
-    F.append(Family("layout/flat", make_layout, "2 blocks from %r at symbolic offset S" % (ALL[:-1],), args=dict(depth=0, nblocks=2, kinds=ALL[:-1]), nontrivial=None, max_forks=300000))
+    F.append(Family("layout/flat", make_layout, "2 blocks from %r at symbolic offset S" % (ALL[:-1] + ["container"],), args=dict(depth=0, nblocks=2, kinds=ALL[:-1] + ["container"]), nontrivial=None, max_forks=300000))
     F.append(Family("layout/D1", make_layout, "one directive (backtick/colon, 3 option styles, 0-2 blank lines, merged first line) containing 1-2 blocks from %r, at symbolic offset S" % (ALL[:-1],),
                     args=dict(depth=1, nblocks=1, kinds=["directive"], inner=["para", "list", "heading", "unknown-role", "unknown-directive", "target"]), nontrivial="directive", max_forks=300000))
     if not q:
@@ -383,6 +473,8 @@ def families(tier, seed):
                     args=dict(depth=2, nblocks=1, kinds=["directive"], inner=["directive"], single=True), nontrivial="directive", max_forks=300000))
     if not q:
         F.append(Family("layout/D3", make_layout, "directive nesting depth 3; symbolic offset S", args=dict(depth=3, nblocks=1, kinds=["directive"], inner=["para", "directive"]), nontrivial="directive", max_forks=600000, required=False))
+    F.append(Family("sphinx-include", make_sphinx_include, "real Sphinx builds: an unknown role inside an included file (same / sub directory) and unknown roles before / after the include in the including file: "
+                    "the logged location names the file the warning belongs to (and the right line in the including file)", nontrivial="directive", max_forks=1000))
     F.append(Family("include", make_include, "include of a file with 1-2 blocks and :start-line: 0..2 at symbolic offset S", nontrivial="directive", max_forks=300000))
     F.append(Family("toplevel", make_toplevel, "top-level render of 2 blocks (depth <= 1) tokenised by the real markdown-it", args=dict(kinds=["para", "list", "heading", "directive", "unknown-role", "dup-refdef"] if q else ALL + ["dup-refdef"]),
                     nontrivial="directive", max_forks=300000))
@@ -390,6 +482,13 @@ def families(tier, seed):
 
 
 def replay(label, witness):
+    if "sphinx_include" in witness:
+        try:
+            log, inc, after_line = run_sphinx_include(witness["sphinx_include"], real=True)
+        except Exception as e:  # noqa
+            return ("C04/exception:%s" % type(e).__name__, "%r" % (e,))
+        err = check_sphinx_include(log, inc, after_line)
+        return ("C04/sphinx:%s" % err[0], err[1]) if err else None
     S = witness["S"]
     if "inc" in witness:
         with tempfile.TemporaryDirectory(prefix="symx_c04_") as d:
